@@ -226,7 +226,8 @@ class TcpClient(object):
             raw_rssi = mm[7] # eighth byte of Mode-S message should contain RSSI value
             rssi_ratio = raw_rssi / 255 
             signalLevel = rssi_ratio ** 2 
-            dbfs_rssi = 10 * math.log10(signalLevel) 
+            # a signal-level byte of 0 is a legal record: no power, -inf dBFS
+            dbfs_rssi = 10 * math.log10(signalLevel) if signalLevel > 0 else -math.inf
  
             # skip incomplete message
             if df in [0, 4, 5, 11] and len(msg) != 14:
